@@ -507,6 +507,9 @@ fn const_j<'tcx>(cx: &Cx<'tcx>, typing_env: TypingEnv<'tcx>, c: &ConstOperand<'t
         _ => {
             let disp = with_crate_prefix!(with_no_visible_paths!(with_no_trimmed_paths!(format!("{}", c.const_))));
             o.push(("v", J::s(cx.fix(disp))));
+            if let Some(sd) = c.check_static_ptr(tcx) {
+                o.push(("static", J::s(cx.path(sd))));
+            }
             match c.const_ {
                 Const::Unevaluated(uv, _) => {
                     o.push(("uneval", J::s(cx.path(uv.def))));
